@@ -311,7 +311,7 @@ Proof.
   cbn [app feed]. unfold step. cbn [st pos rhdr cur rfiles ready].
   assert ((c =? nth p crlfcrlf 0) = false) as Hne.
   { apply N.eqb_neq. destruct Hp as [Hp|Hp]; subst p; exact Hc. }
-  rewrite Hne. cbn [Nat.eqb].
+  rewrite Hne. destruct (N.eqb_spec c 13) as [E13|_]; [congruence|]. cbn [Nat.eqb].
   assert (is_nil (l ++ rest) = false) as Hn0 by (apply is_nil_app_r; exact Hr).
   rewrite Hn0. cbn [end_ev ev_ok is_nil].
   rewrite (IH 0%nat (c :: rh) cu fs rest (or_introl eq_refl) Hl Hr).
